@@ -25,7 +25,7 @@ ASSUMPTIONS = [
     'XML-illegal characters and the DOCTYPE line are set aside before parsing, as the statement says',
 ]
 FLOOR = {'quick': 500, 'thorough': 2500}
-SPACE = {'quick': '36 payloads x 56 sinks (42 element-text sinks, 9 attribute-value sinks, 5 command-line / file-name sinks); docformat resolution: own x sub-package x root-package declaration in {none, restructuredtext, plaintext, epytext} x 2 command-line formats, quoted raw directive as docstring', 'thorough': 'quick + all ordered pairs of 40 sinks x 2 payloads'}
+SPACE = {'quick': '42 payloads x 73 sinks (42 element-text sinks, 9 attribute-value sinks, 5 command-line / file-name sinks); docformat resolution: own x sub-package x root-package declaration in {none, restructuredtext, plaintext, epytext} x 2 command-line formats, quoted raw directive as docstring', 'thorough': 'quick + all ordered pairs of 40 sinks x 2 payloads'}
 JOB_TIMEOUT = 2300
 
 M = 'zqx1'
@@ -36,6 +36,8 @@ PAYLOADS = [
     'a\r\r.. raw:: html\r\r   <zqx1>t</zqx1>\r\r..', '<zqx1/>\xa0<zqx1/>', 'a\x1c\x1c.. raw:: html\x1c\x1c   <zqx1>t</zqx1>\x1c\x1c..',
     'x`` `k <javascript:zqx1>`_ ``y', '` `k <javascript:zqx1>`_ `',
     'zqx1" onzqa1="1', "zqx1' onzqa1='1", 'zqx1"onzqa1="1', 'zqx1" onzqa1="1" x="',
+    # whitespace-free break-outs of an attribute value that leave the page well-formed: close the tag, plant an element, re-open the same tag
+    'sh"><zqx1>t</zqx1></pre><pre>', 'x"><zqx1/></a><a>', 'x"><zqx1/></span><span>', 'x"><zqx1/></div><div>', 'x"><zqx1/></code><code>', "x'><zqx1/></pre><pre>",
 ]
 DANGEROUS = ['"><zqx1 onzqa1="1">', 'x--<zqx1>y</zqx1>']
 
@@ -79,6 +81,17 @@ SINKS: Dict[str, Tuple[str, Callable[[str], str], bool]] = {
     'const-regex':     ('epytext', lambda P: f'import re\nfrom typing import Final\nX: Final = re.compile({pylit(P)})\n', False),
     'const-fstring':   ('epytext', lambda P: f'from typing import Final\nX: Final = f"{{a}}" + {pylit(P)}\nW: Final = lambda q={pylit(P)}: q\n', False),
     'default':         ('epytext', lambda P: f'def f(a={pylit(P)}, *, k={pylit(P)}): pass\n', False),
+    # the same payload as a bytes literal in every expression position (another branch of the value renderer)
+    'default-bytes':   ('epytext', lambda P: f'def f(a={P.encode("utf-8", "surrogatepass")!r}, *, k={P.encode("utf-8", "surrogatepass")!r}): pass\nclass K:\n    def m(self, b={P.encode("utf-8", "surrogatepass")!r}): pass\n', False),
+    'decorator-bytes': ('epytext', lambda P: f'@deco({P.encode("utf-8", "surrogatepass")!r})\ndef f(): pass\n', False),
+    'base-bytes':      ('epytext', lambda P: f'class K(Base[{P.encode("utf-8", "surrogatepass")!r}]): pass\n', False),
+    'default-number-attr': ('epytext', lambda P: f'def f(a=1 .real, b=2.5j, c=-0.0, d={pylit(P)}.x): pass\n', False),
+    # arguments and options of directives (not raw / include): language of a code block, version of a version directive, admonition title
+    'rst-code-language': ('restructuredtext', lambda P: f'def f():\n    r\'\'\'Doc.\n\n    .. code:: {P}\n\n        x = 1\n    \'\'\'\n', False),
+    'rst-codeblock-language': ('restructuredtext', lambda P: f'def f():\n    r\'\'\'Doc.\n\n    .. code-block:: {P}\n\n        x = 1\n    \'\'\'\n', False),
+    'rst-version-argument': ('restructuredtext', lambda P: f'def f():\n    r\'\'\'Doc.\n\n    .. versionadded:: {P}\n\n    .. deprecated:: 1.0 {P}\n    \'\'\'\n', False),
+    'rst-admonition-title': ('restructuredtext', lambda P: f'def f():\n    r\'\'\'Doc.\n\n    .. admonition:: {P}\n\n       body\n    \'\'\'\n', False),
+    'google-code-language': ('google', lambda P: f'def f():\n    r\'\'\'Doc.\n\n    Example:\n        .. code:: {P}\n\n            x = 1\n    \'\'\'\n', False),
     'annotation':      ('epytext', lambda P: f'def f(a: {pylit(P)}, b: "List[{P}]" = 1) -> {pylit(P)}: pass\nv: {pylit(P)} = 1\n', False),
     'literal-ann':     ('epytext', lambda P: f'from typing import Literal\ndef f(a: Literal[{pylit(P)}]) -> Literal[{pylit(P)}]: pass\n', False),
     'type-comment':    ('epytext', lambda P: f'v = 1 # type: {P}\n', False),
@@ -116,7 +129,7 @@ SINKS.update({
 })
 # the author wrote these values as link targets: what the URL does is theirs (statement), breaking out of the attribute is not
 AUTHOR_URL = {'rst-link-target', 'rst-target-def', 'rst-image-uri', 'rst-image-target', 'google-link-target', 'epy-url-target'}
-VALUE_SINKS = AUTHOR_URL | {'rst-image-alt', 'rst-class-option', 'numpy-image-alt'}
+VALUE_SINKS = AUTHOR_URL | {'rst-image-alt', 'rst-class-option', 'numpy-image-alt', 'rst-code-language', 'rst-codeblock-language', 'rst-version-argument', 'rst-admonition-title', 'google-code-language'}
 
 # sinks that need their own runner
 SPECIAL = ['file-name', 'project-name', 'project-url', 'project-version', 'html-viewsource-base', 'intersphinx-free']
